@@ -89,6 +89,8 @@ def classify(f):
             return "estimator_neither_recreated_nor_kept"
         return "end:%s" % ev.get("outcome")
     if ev.get("e") == "try":
+        if not ev.get("accok", True):
+            return "probe_acceptance_is_not_min_1_exp_energy_change"
         if ev.get("kexp") == 9999:
             return "probe_not_factor_two"
         return "probe_sequence"
@@ -147,7 +149,7 @@ def run(tier):
         "harness-side predicates (declared): acceptance compared with the target in f64 from the logged bit patterns; step = initial*2^k "
         "bit for bit; estimator step equal to the installed step to 1e-12; iterate / weighted-average formulas to 1e-9 in log space",
         "monotonicity is decided on the grid {0, 1/2, 4/5, 1} (thorough: + 1/4) for 4 updates and 5 parameter sets, not for all reals",
-        "the acceptance statistic itself (energy error -> acceptance) is taken from the implementation",
+        "the acceptance of a search probe and the two acceptance statistics of a draw are recomputed harness-side from the energies the leapfrog hook reports (min(1, exp(E0 - E)), 1e-12)",
     ]
     C.build_harness()
     search_mc(chk, tier)
